@@ -589,7 +589,7 @@ func checkRound2C04(c *core.Ctx) {
 		info := p.TypesInfo
 		found := false
 		core.AllFuncDecls(p, func(fd *ast.FuncDecl) {
-			if fd.Name.Name != "callNativeFunc" {
+			if fd.Name.Name != interpExecLoopName(p) {
 				return
 			}
 			ast.Inspect(fd.Body, func(x ast.Node) bool {
